@@ -570,8 +570,9 @@ def execute(h):
                               base, get_dflt_effective_date=None)][
                                   len(convs) % 3]())
         elif c['clock'] == 'callable' or not shim_ok:
-            own = world.SimClock(dt.date.fromisoformat(
-                c.get('clock0', cfg['clock0'])))
+            own = (world.EmptyLookingClock if len(convs) % 3 == 1
+                   else world.SimClock)(dt.date.fromisoformat(
+                       c.get('clock0', cfg['clock0'])))
             clocks.append(own)
             cclk.append(own)
             convs.append(MoneyConverter(base, get_dflt_effective_date=own))
